@@ -1,13 +1,17 @@
-"""print the prompt for a seeding sub-agent: python tools/seed_prompt.py C01 /tmp/wt_c01 [n]"""
+"""print the prompt for a seeding sub-agent: python tools/seed_prompt.py C01 /tmp/wt_c01 [n] [first_k] [file with changes to avoid]"""
 import json
 import sys
 
 pid, wt = sys.argv[1], sys.argv[2]
 n = int(sys.argv[3]) if len(sys.argv) > 3 else 2
+k0 = int(sys.argv[4]) if len(sys.argv) > 4 else 1
+avoid = open(sys.argv[5]).read().strip() if len(sys.argv) > 5 else ""
+avoid_text = ("\nOther developers have ALREADY made the following changes; do not repeat them or close variants of them, look at other "
+              "mechanisms, other files or other parts of the statement:\n" + avoid + "\n") if avoid else ""
 rec = next(json.loads(l) for l in open("/verif/properties.jsonl") if json.loads(l)["id"] == pid)
 print(f"""You are helping to evaluate a verification effort for the Python library adaptix (data-model conversion: loaders, dumpers, converters generated from type hints). Your job is to play the role of a developer who makes a realistic but WRONG change to the library.
 
-You work ONLY inside the git worktree {wt} (a checkout of the library; source under {wt}/src/adaptix, tests under {wt}/tests, docs under {wt}/docs). Do not read or write anything under /verif or /repo. Run Python as /venv/bin/python with the worktree's sources first on the path, e.g. from the worktree root:
+You work ONLY inside the git worktree {wt} (a checkout of the library; source under {wt}/src/adaptix, tests under {wt}/tests, docs under {wt}/docs). Do not read or write anything under /verif or /repo, and never use `git stash` (the stash is shared with other worktrees). Run Python as /venv/bin/python with the worktree's sources first on the path, e.g. from the worktree root:
     PYTHONPATH={wt}/src:{wt}/tests/tests_helpers /venv/bin/python -m pytest -q -p no:cacheprovider -x        (the whole suite takes about 15 s; it must pass before and after your change: "2588 passed")
     PYTHONPATH={wt}/src /venv/bin/python your_demo.py
 
@@ -25,7 +29,7 @@ TASK: produce {n} DIFFERENT changes to the library source (each independent, eac
   2. the change BREAKS the property above: there is an input / configuration / sequence of calls / thread interleaving for which the stated behaviour no longer holds;
   3. the breakage needs something SPECIFIC to manifest — a particular unusual input, a particular combination of options, a multi-step sequence of operations, a particular interleaving, or two cooperating sites that each look fine alone — NOT something ordinary use would expose at once;
   4. the change is the kind of mistake a real refactoring, optimisation or "small cleanup" could introduce (a few lines; no sabotage such as `if x == 42`, no new imports of random/time, no code that detects that it is being tested).
-For each change write into the directory {wt}/../seed_{pid.lower()}_<k>/ (k = 1..{n}; create it):
+{avoid_text}For each change write into the directory {wt}/../seed_{pid.lower()}_<k>/ (k = {k0}..{k0 + n - 1}; create it):
   - patch.diff      : `git diff` of the change against the clean worktree (apply-able with `git apply` from the repository root);
   - demo.py         : a small stand-alone program using only the public adaptix API (plus stdlib) that exits 0 on the clean tree and exits 1 (printing what went wrong) with the change applied; it must be deterministic;
   - notes.md        : which part of the property it breaks, what exactly is needed for it to manifest, and the evidence that the suite passes with it (paste the final pytest summary line).
